@@ -29,7 +29,7 @@ def run(ctx):
     D.rule_accept_guard(res, "C05-R5", m)
     D.rule_deliver_release(res, "C05-R6", m)
     D.rule_reject_reasons(res, "C05-R7", m)
-    res.floor("C05-R1", 8)
+    res.floor("C05-R1", 5)  # one keyed operation per protocol case that touches the table
     res.floor("C05-R3", 1)
     res.floor("C05-R4", 2, n4)
     res.floor("C05-R5", 20)
